@@ -552,15 +552,6 @@ def keys(ctx):
 
 # ---------------------------------------------------------------- stream C: damage
 
-def offsets_for(size, quick, r):
-    if not quick or size <= 64:
-        return list(range(size + 1))
-    s = set(range(16)) | set(range(size - 15, size + 1))
-    while len(s) < 64:
-        s.add(r.randrange(size + 1))
-    return sorted(s)
-
-
 def damage(ctx):
     r = ctx.rng("damage")
     cfg = G.base_cfg(r)
@@ -576,41 +567,36 @@ def damage(ctx):
     for i in range(nsrc):
         files, js = G.gen_package(r, 900 + i)
         ents.append(dict(kind="src", src=files, js=js, label="sources"))
-    hist = []
+    nflips = 400 if ctx.quick else 6000
+    jobs, meta = [], []
     for i, e in enumerate(ents):
         ip = "verif/dmg%d" % i
         st = dict(op="store", cfg=cfg, ip=ip, t=T, chunks=e["chunks"], fail_after=-1) if e["kind"] == "toy" else dict(op="store_src", cfg=cfg, ip=ip, t=T, src=e["src"], js=e["js"])
-        hist.append([st, dict(op="trunc", cfg=cfg, ip=ip, drop=0)])
-    sizes = [(x[1]["size"] if x is not None and x[1]["existed"] else None) for x in run_h(ctx, hist, "dmgprobe")]
-    if any(sz is None for sz in sizes):
-        ctx.notes.append("damage: %d stored files skipped (infrastructure)" % sum(sz is None for sz in sizes))
-    nflips = 400 if ctx.quick else 6000
-    jobs, meta = [], []
-    for i, (e, size) in enumerate(zip(ents, sizes)):
-        if size is None:
-            continue
-        ip = "verif/dmg%d" % i
-        st = dict(op="store", cfg=cfg, ip=ip, t=T, chunks=e["chunks"], fail_after=-1) if e["kind"] == "toy" else dict(op="store_src", cfg=cfg, ip=ip, t=T, src=e["src"], js=e["js"])
-        offs = offsets_for(size, ctx.quick, r)
-        flips = [[r.randrange(size), r.choice([1, 2, 4, 8, 16, 32, 64, 128, 255, r.randint(1, 255)])] for _ in range(nflips)]
-        if not ctx.quick and size <= 4000:
-            flips = [[p, m] for p in range(size) for m in (1, 128, r.randint(1, 255))]
-        # split into several jobs so they spread over the cores
-        for part in range(0, len(offs), 4000):
-            jobs.append([st, dict(op="sweep_trunc", cfg=cfg, ip=ip, t=T, kind=e["kind"], offsets=offs[part:part + 4000])])
-            meta.append((i, "trunc", offs[part:part + 4000]))
-        for part in range(0, len(flips), 1000):
-            jobs.append([st, dict(op="sweep_flip", cfg=cfg, ip=ip, t=T, kind=e["kind"], flips=flips[part:part + 1000])])
-            meta.append((i, "flip", flips[part:part + 1000]))
+        # sizes and positions are resolved by the harness against the file it has just written
+        if ctx.quick:
+            tr = dict(op="sweep_trunc", cfg=cfg, ip=ip, t=T, kind=e["kind"], offsets=list(range(16)), drops=list(range(16)), fracs=[r.randrange(1000000) for _ in range(32)])
+        else:
+            tr = dict(op="sweep_trunc", cfg=cfg, ip=ip, t=T, kind=e["kind"], all=True)
+        jobs.append([st, tr]); meta.append((i, "trunc"))
+        if not ctx.quick and e["label"] in ("small", "medium"):
+            jobs.append([st, dict(op="sweep_flip", cfg=cfg, ip=ip, t=T, kind=e["kind"], all=True, masks=[1, 128, r.randint(1, 255)])]); meta.append((i, "flip"))
+        else:
+            flips = [[r.randrange(1 << 30), r.choice([1, 2, 4, 8, 16, 32, 64, 128, 255, r.randint(1, 255)])] for _ in range(nflips)]
+            for part in range(0, len(flips), 1000):
+                jobs.append([st, dict(op="sweep_flip", cfg=cfg, ip=ip, t=T, kind=e["kind"], flips=flips[part:part + 1000])]); meta.append((i, "flip"))
     res = run_h(ctx, jobs, "dmg")
     dist = dict(files={}, trunc_probes=0, trunc_hit_although_truncated=0, flip_probes=0, flip_miss=0, flip_hit_same=0, flip_hit_different=0, panics=0,
                 hypothesis_violations=0)
     reported = set()
-    for (i, what, probes), x in zip(meta, res):
+    sizes = {}
+    for (i, what), x in zip(meta, res):
         if x is None:
             continue
-        e, size = ents[i], sizes[i]
+        e = ents[i]
         x = x[1]
+        size = x["size"]
+        sizes.setdefault(i, size)
+        probes = x["ks"] if what == "trunc" else list(zip(x["ks"], x["xs"]))
         dist["files"][e["label"]] = dist["files"].get(e["label"], 0) + 1
         desc = dict(kind="damage", entry={k: v for k, v in e.items() if k in ("kind", "label")}, file_size=size, cfg=cfg, ip="verif/dmg%d" % i, t=T,
                     payload=(e.get("chunks") if e["kind"] == "toy" and size < 400 else None), src=e.get("src"))
@@ -667,7 +653,7 @@ def damage(ctx):
                         reported.add((key, e["kind"]))
                         ctx.violation(key, "byte %d of a %d-byte cache file xor %d: Load panicked: %s" % (p[0], size, p[1], x["panics"][:1]), dict(desc, flip=p))
     ctx.cov["damage_distribution"] = dist
-    ctx.sample(dict(kind="damage", files=len(ents), sizes=sizes[:12]))
+    ctx.sample(dict(kind="damage", files=len(ents), sizes=[sizes[k] for k in sorted(sizes)][:12]))
 
 
 # ---------------------------------------------------------------- stream D: SIGKILL at random instants
